@@ -23,7 +23,7 @@ RULE = ("notes = names (7 letters x every '#'/'b' string up to length 4 in all o
         "and with an octave suffix. Non-trivial: name with an accidental (incl. spellings that cross the octave "
         "boundary, Cb / B#), pair of different letters, detune != 0, bound value outside the range, malformed string "
         "sharing a valid prefix."
-        " Also: the same Note object reused across Hz conversions with different standard pitches; velocity / channel bounds together with the 'Name-octave' text form; a coverage-guided atheris campaign over name-like text; comparisons between notes that differ in velocity and channel (half of them of equal pitch).")
+        " Also: the same Note object reused across Hz conversions with different standard pitches; velocity / channel bounds together with the 'Name-octave' text form; a coverage-guided atheris campaign over name-like text; comparisons between notes that differ in velocity and channel (half of them of equal pitch); the frequency of every spelling against the pitch-number formula at three standard pitches; direct assignment to .name / .octave after the number has been read.")
 ASSUMPTIONS = [
     "'printed form' is repr(note), a quoted Python string literal; it is unquoted with ast.literal_eval before being fed back",
     "malformed names are non-empty strings without '-' that do not match [A-G][#b]*, alone or followed by '-<int>' "
@@ -86,6 +86,35 @@ def check_note(ctx, case):
     if not failed(f0) and not failed(f1):
         ctx.check(f0 > 0 and abs(f1 / f0 - 2.0) <= 2e-12, "hertz/octave-doubling",
                   lambda: "%s-%d: %r Hz, one octave up %r Hz" % (name, octave, f0, f1))
+    # ... and follows the pitch number: A-4 (number 57) at the standard pitch, a factor 2^(1/12) per semitone, whatever the spelling
+    for std in (440, 415.3, 466):
+        f = ctx.ok("to_hertz", (lambda: x.to_hertz()) if std == 440 else (lambda: x.to_hertz(std)))
+        if not failed(f):
+            want = std * 2.0 ** ((p - 57) / 12.0)
+            ctx.check(abs(f - want) <= 1e-9 * want, "hertz/value",
+                      lambda: "Note(%r, %d).to_hertz(%r) -> %r, pitch number %d gives %r" % (name, octave, std, f, p, want))
+    # name and octave are plain attributes (the library's own modules assign them): a note that has already been asked for its
+    # number follows a direct assignment
+    w = ctx.ok("construct", Note, name, octave)
+    if not failed(w):
+        ctx.ok("int", int, w)
+        ctx.ok("compare", lambda: w == x)
+        o2 = (octave + 3) % 10
+        w.octave = o2
+        i2 = ctx.ok("int", int, w)
+        ctx.check(failed(i2) or i2 == T.pitch(name, o2), "int/after-octave-assignment",
+                  lambda: "Note(%r, %d), octave set to %d: int -> %r, expected %d" % (name, octave, o2, i2, T.pitch(name, o2)))
+        n2 = "G" if name[0] != "G" else "Db"
+        w.name = n2
+        i3 = ctx.ok("int", int, w)
+        ctx.check(failed(i3) or i3 == T.pitch(n2, o2), "int/after-name-assignment",
+                  lambda: "Note(%r, %d), then .octave = %d, .name = %r: int -> %r, expected %d" % (name, octave, o2, n2, i3, T.pitch(n2, o2)))
+        c = ctx.ok("compare", lambda: (w == Note(n2, o2), w < Note(n2, o2), Note(w) == w))
+        ctx.check(failed(c) or c == (True, False, True), "compare/after-assignment", lambda: "%r-%r after direct assignment: ==, <, copy== give %r" % (n2, o2, c))
+        fz = ctx.ok("to_hertz", w.to_hertz)
+        if not failed(fz):
+            want = 440 * 2.0 ** ((T.pitch(n2, o2) - 57) / 12.0)
+            ctx.check(abs(fz - want) <= 1e-9 * want, "hertz/after-assignment", lambda: "%r-%r: %r Hz, expected %r" % (n2, o2, fz, want))
     # Helmholtz shorthand
     if T.unmixed(name):
         sh = ctx.ok("to_shorthand", x.to_shorthand)
